@@ -16,6 +16,7 @@ package c04
 import (
 	"context"
 	"encoding/hex"
+	"fmt"
 	"sort"
 	"strings"
 
@@ -382,5 +383,54 @@ func opMatch(ctx context.Context, r *hx.Run, name string, m driver.Matcher, opt 
 	}
 	r.Op("match "+name+" "+b2i(opt)+" "+b2i(ir)+" "+vul+" "+rec.toks()+" "+row.toks(), out, out == "reported true")
 	r.Count("match:" + out)
+	return out
+}
+
+// opMatchN: the real Controller on SEVERAL records of one package (same
+// Package.ID; they differ in distribution / repository, as the records of a
+// package indexed under several repositories or environments do) and a store
+// holding one row.
+func opMatchN(ctx context.Context, r *hx.Run, name string, m driver.Matcher, opt bool, recs []recT, row rowT) string {
+	st := &memStore{}
+	st.add(row.real())
+	if len(st.rows) != 1 || len(recs) == 0 {
+		return ""
+	}
+	stored := st.rows[0].vuln
+	var reals []*claircore.IndexRecord
+	var toks []string
+	for _, rec := range recs {
+		real := rec.real()
+		vul := hx.Guard(func() string {
+			cp := *stored
+			b, err := m.Vulnerable(ctx, real, &cp)
+			if err != nil {
+				return "err"
+			}
+			return b2i(b)
+		})
+		if vul != "0" && vul != "1" {
+			return ""
+		}
+		reals = append(reals, real)
+		toks = append(toks, b2i(inRange(rec, row))+" "+vul+" "+rec.toks())
+	}
+	out := hx.Guard(func() string {
+		res, err := matcher.NewController(m, st).Match(ctx, reals)
+		if err != nil {
+			return "err"
+		}
+		for _, v := range res[reals[0].Package.ID] {
+			if v.ID == stored.ID {
+				return "reported true"
+			}
+		}
+		return "no"
+	})
+	if st.sqlErr != nil {
+		r.Fail("", "the SQL text of buildGetQuery is no longer of the known shape: "+st.sqlErr.Error())
+	}
+	r.Op(fmt.Sprintf("matchn %s %s %d %s %s", name, b2i(opt), len(recs), strings.Join(toks, " "), row.toks()), out, out == "reported true")
+	r.Count("matchn:" + out)
 	return out
 }
